@@ -478,6 +478,8 @@ def _file_obs(path, cryomotl):
         o["cols"], o["tokens"], o["loop"] = blk["cols"], blk["rows"], blk["loop"]
     m2 = cryomotl.StopgapMotl(path)
     o["loaded_cols"] = [str(c) for c in m2.df.columns]
+    # a field that comes back as text (object dtype) is not "reproduced": record it instead of coercing silently
+    o["loaded_text_cols"] = [str(c) for c, t in m2.df.dtypes.items() if t.kind not in "fiub"]
     o["loaded"] = _motl_rows(m2.df)
     return o
 
@@ -622,6 +624,9 @@ def _direct_export_file(case, f, label):
             bad.append(("file-motl_idx", f"{label}: particle {i}: motl_idx written {toks[i][ci['motl_idx']]!r}, expected {widx!r}"))
         if bad:
             return bad
+    textual = [e for e, _ in DOC_PAIRS if e in f.get("loaded_text_cols", [])]
+    if textual:
+        return [("reload-fields", f"{label}: fields {textual} come back from the file as text, not numbers")]
     if f["loaded_cols"] != MOTL_COLS or len(f["loaded"]) != N:
         return [("reload-shape", f"{label}: reloaded {len(f['loaded'])} particles, columns {f['loaded_cols'][:4]}...")]
     for i in range(N):
